@@ -1689,6 +1689,51 @@ impl Interp {
         o.push('\n');
     }
 
+    /// Comparison with an object on the left: the explicit metakey, otherwise the derivations the
+    /// guide describes (`!=` from `@==`; `<=`, `>`, `>=` from `@<` and `@==`), evaluated in the order
+    /// less-then-equal. Anything else is left to C17.
+    fn object_compare(&mut self, op: Op, lv: &V, rv: &V) -> R {
+        let V::Map(m) = lv else { return unjudged("object comparison") };
+        let get = |k: &str| m.lock().unwrap().meta_get(k);
+        if matches!(rv, V::Null) && matches!(op, Op::Eq | Op::Ne) {
+            return unjudged("== / != against null is decided without calling @==");
+        }
+        if let Some(f) = get(&format!("@{}", op.text())) {
+            return self.call(&f, vec![rv.clone()], Some(lv.clone()));
+        }
+        let as_bool = |v: V| -> Result<bool, Ctl> {
+            match v {
+                V::Bool(b) => Ok(b),
+                _ => Err(Ctl::Unjudged("comparison metakey returning a non-Bool".into())),
+            }
+        };
+        match op {
+            Op::Ne => {
+                let Some(eq) = get("@==") else { return unjudged("structural comparison of objects") };
+                let e = self.call(&eq, vec![rv.clone()], Some(lv.clone()))?;
+                Ok(V::Bool(!as_bool(e)?))
+            }
+            Op::Le | Op::Gt => {
+                let (Some(lt), Some(eq)) = (get("@<"), get("@==")) else { return unjudged("derived comparison without both @< and @==") };
+                let l = self.call(&lt, vec![rv.clone()], Some(lv.clone()))?;
+                let l = as_bool(l)?;
+                let le = if l {
+                    true
+                } else {
+                    let e = self.call(&eq, vec![rv.clone()], Some(lv.clone()))?;
+                    as_bool(e)?
+                };
+                Ok(V::Bool(if op == Op::Le { le } else { !le }))
+            }
+            Op::Ge => {
+                let (Some(lt), Some(_)) = (get("@<"), get("@==")) else { return unjudged("derived comparison without both @< and @==") };
+                let l = self.call(&lt, vec![rv.clone()], Some(lv.clone()))?;
+                Ok(V::Bool(!as_bool(l)?))
+            }
+            _ => unjudged("comparison on an object without the metakey"),
+        }
+    }
+
     fn eval_bin(&mut self, op: Op, l: &E, r: &E) -> R {
         match op {
             Op::And => {
@@ -1723,6 +1768,11 @@ impl Interp {
                         }
                         _ => {
                             let rv = self.eval(rhs)?;
+                            if let V::Map(m) = &lv {
+                                if !m.lock().unwrap().meta.is_empty() {
+                                    return self.object_compare(op, &lv, &rv);
+                                }
+                            }
                             return Ok(V::Bool(compare(op, &lv, &rv)?));
                         }
                     }
